@@ -44,6 +44,7 @@ impl<'a> Ent<'a> {
 }
 
 #[derive(Clone, Debug, Hash, PartialEq, Eq, Serialize, Deserialize)]
+#[serde(default)]
 pub struct GenCfg {
     pub max_stmts: usize,
     pub max_depth: usize,
@@ -66,6 +67,12 @@ pub struct GenCfg {
     pub shadow_forward_ref: bool,
     /// generate loops / conditionals / macro calls more often
     pub constructs_boost: bool,
+}
+
+impl Default for GenCfg {
+    fn default() -> Self {
+        GenCfg::c02()
+    }
 }
 
 impl GenCfg {
